@@ -57,7 +57,7 @@ CallBad ==
                  IF s.expect.present /\ Mode \in {"split", "reference", "same"}
                  THEN (IF Has("pfx") /\ ~E.pfx THEN {"PrefixOfOracle"} ELSE {})
                       \cup (IF Has("out_total") /\ s.expect.hasOut /\ E.out_total > s.expect.out_total THEN {"ProducedAtMostOracle"} ELSE {})
-                      \cup (IF Has("in_total") /\ s.expect.cls # "err" /\ Mode # "reference" /\ E.in_total > s.expect.in_total
+                      \cup (IF Has("in_total") /\ s.expect.hasIn /\ s.expect.cls # "err" /\ Mode # "reference" /\ E.in_total > s.expect.in_total
                             THEN {"ConsumedAtMostOracle"} ELSE {})
                  ELSE {}
         img == IF Has("dirty_in_frame") /\ ~E.dirty_in_frame THEN {"DirtyRectInsideFrame"} ELSE {}
@@ -73,16 +73,16 @@ EndBad ==
               ELSE IF Mode = "reference"
               THEN \* reference payload: OK (or the documented end-of-data note for image/token flows) and equal output
                    (IF E.cls \notin {"ok", "note"} THEN {"ReferenceDecodesOK"} ELSE {})
-                   \cup (IF x.hasOut /\ (E.out_total # x.out_total \/ ~E.pfx) THEN {"OutputEqualsReference"} ELSE {})
-                   \cup (IF x.hasHash /\ E.out_hash # x.out_hash THEN {"OutputEqualsReference"} ELSE {})
+                   \cup (IF x.hasOut /\ Has("out_total") /\ (E.out_total # x.out_total \/ ~E.pfx) THEN {"OutputEqualsReference"} ELSE {})
+                   \cup (IF x.hasHash /\ Has("out_hash") /\ E.out_hash # x.out_hash THEN {"OutputEqualsReference"} ELSE {})
                    \cup (IF x.hasSum /\ (~Has("sum") \/ E.sum # x.sum) THEN {"ChecksumEqualsReference"} ELSE {})
               ELSE \* split / same: equal status, equal output, equal consumption unless error
                    \* (the consumed count is only compared when the final status is not an error: after an error the
                    \* object is dead and how far a fast path had read ahead is unspecified - the property's own carve-out)
                    (IF E.st # x.st THEN {"FinalStatusEqualsOracle"} ELSE {})
-                   \cup (IF x.hasOut /\ E.out_total # x.out_total THEN {"FinalOutputEqualsOracle"} ELSE {})
-                   \cup (IF x.hasHash /\ E.out_hash # x.out_hash THEN {"FinalOutputEqualsOracle"} ELSE {})
-                   \cup (IF x.cls # "err" /\ E.in_total # x.in_total THEN {"ConsumedEqualsOracleUnlessError"} ELSE {})
+                   \cup (IF x.hasOut /\ Has("out_total") /\ E.out_total # x.out_total THEN {"FinalOutputEqualsOracle"} ELSE {})
+                   \cup (IF x.hasHash /\ Has("out_hash") /\ E.out_hash # x.out_hash THEN {"FinalOutputEqualsOracle"} ELSE {})
+                   \cup (IF x.cls # "err" /\ Has("in_total") /\ x.hasIn /\ E.in_total # x.in_total THEN {"ConsumedEqualsOracleUnlessError"} ELSE {})
                    \cup (IF x.hasSum /\ (~Has("sum") \/ E.sum # x.sum) THEN {"ChecksumEqualsOracle"} ELSE {})
         hs == IF Has("sum_eq_last") /\ ~E.sum_eq_last THEN {"ChecksumIsPure"} ELSE {}
         ph == IF s.phase # "begun" THEN {"EndOutsideJob"} ELSE {}
@@ -101,7 +101,7 @@ Expect == /\ Step("expect")
                                         hasOut |-> Has("out_total"), out_total |-> IF Has("out_total") THEN E.out_total ELSE 0,
                                         hasHash |-> Has("out_hash"), out_hash |-> IF Has("out_hash") THEN E.out_hash ELSE "",
                                         hasSum |-> Has("sum"), sum |-> IF Has("sum") THEN E.sum ELSE "",
-                                        in_total |-> IF Has("in_total") THEN E.in_total ELSE 0]]
+                                        hasIn |-> Has("in_total"), in_total |-> IF Has("in_total") THEN E.in_total ELSE 0]]
           /\ bad' = {}
 
 Begin == /\ Step("begin")
